@@ -65,10 +65,18 @@ Lemma do_op_frame o w g st :
   w_stack w = g :: st ->
   keeps (fun x => x <> g) w (fst (do_op o w)).
 Proof.
-  intros E. unfold do_op. destruct (apply_op o (cur_ctx w)); cbn [fst].
-  - unfold set_cur_ctx. rewrite E. eapply keeps_trans; [| apply keeps_emit | auto].
+  intros E. unfold do_op. destruct (apply_op o (cur_ctx w)) as [c|]; cbn [fst].
+  - unfold set_cur_ctx. rewrite E.
+    apply (keeps_trans _ (fun x => x <> g) _ (set_ctx g (Some c) w)); [| apply keeps_emit | auto].
     apply keeps_upd. auto.
   - apply keeps_emit.
+Qed.
+
+Lemma keeps_step (P Q : gid -> Prop) w w1 w2 :
+  keeps Q w w1 -> (forall x, P x -> Q x) -> keeps P w1 w2 -> keeps P w w2.
+Proof.
+  intros (a & b & c) H (a' & b' & c'). repeat split; try congruence.
+  intros x Hx. rewrite c' by auto. auto.
 Qed.
 
 Lemma run_seg_frame res : res_frame res ->
@@ -77,25 +85,30 @@ Lemma run_seg_frame res : res_frame res ->
 Proof.
   intros Hres. induction sg as [h k IH|h k IH|k IH|g' i k IH|v s|v|e]; intros w g st E; cbn [run_seg].
   - pose proof (do_op_frame (OpEnter h) w g st E) as F.
-    eapply keeps_trans; [eapply keeps_weaken; [exact F|] | apply (IH _ g st) | auto]; cbn; try tauto.
-    destruct F as (_ & b & _). congruence.
+    apply (keeps_step _ _ _ _ _ F); [intros x [_ H]; exact H|].
+    apply IH. destruct F as (_ & b & _). congruence.
   - pose proof (do_op_frame (OpExit h) w g st E) as F.
     destruct (do_op (OpExit h) w) as [w1 ok]. cbn [fst] in F.
     destruct ok; cbn [fst].
-    + eapply keeps_trans; [eapply keeps_weaken; [exact F|] | apply (IH _ g st) | auto]; cbn; try tauto.
-      destruct F as (_ & b & _). congruence.
-    + eapply keeps_weaken; [exact F|]. cbn; tauto.
+    + apply (keeps_step _ _ _ _ _ F); [intros x [_ H]; exact H|].
+      apply IH. destruct F as (_ & b & _). congruence.
+    + eapply keeps_weaken; [exact F|]. intros x [_ H]; exact H.
   - pose proof (do_op_frame OpProbe w g st E) as F.
-    eapply keeps_trans; [eapply keeps_weaken; [exact F|] | apply (IH _ g st) | auto]; cbn; try tauto.
-    destruct F as (_ & b & _). congruence.
+    apply (keeps_step _ _ _ _ _ F); [intros x [_ H]; exact H|].
+    apply IH. destruct F as (_ & b & _). congruence.
   - pose proof (Hres g' i w) as F. destruct (res g' i w) as [w1 o]. cbn [fst] in F.
-    eapply keeps_trans; [eapply keeps_weaken; [exact F|] | apply (IH o _ g st) | auto].
-    + cbn. intros x [Hx _]. rewrite E. now right.
-    + destruct F as (_ & b & _). congruence.
+    apply (keeps_step _ _ _ _ _ F).
+    + intros x [Hx _]. rewrite E. now right.
+    + apply IH. destruct F as (_ & b & _). congruence.
   - apply keeps_refl.
   - apply keeps_refl.
   - apply keeps_refl.
 Qed.
+
+Lemma keeps_then (P : gid -> Prop) w w1 w2 : keeps P w w1 -> keeps P w1 w2 -> keeps P w w2.
+Proof. intros A B. apply (keeps_trans P P w w1 w2 A B). auto. Qed.
+Lemma keeps_upd_top st g f w : keeps (fun x => In x st /\ x <> g) w (upd_gen g f w).
+Proof. apply keeps_upd. intros [_ H]. congruence. Qed.
 
 Lemma inner_resume_frame res : res_frame res ->
   forall g bi w st, w_stack w = g :: st ->
@@ -112,9 +125,9 @@ Proof.
         end))).
   { intros s. pose proof (run_seg_frame res Hres (g_body x s bi) w g st E) as F.
     destruct (run_seg res (g_body x s bi) w) as [w1 r]. cbn [fst] in F.
-    destruct r; cbn [fst]; (eapply keeps_trans; [exact F | apply keeps_upd | auto]); tauto. }
+    destruct r; cbn [fst]; (apply (keeps_then _ _ _ _ F)); apply keeps_upd_top. }
   destruct (g_i x); destruct bi as [[v|]|e]; try apply R; try apply keeps_refl;
-    cbn [fst]; apply keeps_upd; tauto.
+    cbn [fst]; apply keeps_upd_top.
 Qed.
 
 Lemma ctx_run_frame res : res_frame res ->
@@ -137,8 +150,7 @@ Proof.
   intros Hres g bi w Hg. unfold tramp.
   pose proof (ctx_run_frame res Hres g bi w Hg) as F.
   destruct (ctx_run g (inner_resume res g bi) w) as [w1 o]. cbn [fst] in F.
-  destruct o; cbn [fst]; (eapply keeps_trans; [exact F | apply keeps_upd | auto]);
-    destruct F as (_ & b & _); rewrite b; auto.
+  destruct o; cbn [fst]; apply (keeps_then _ _ _ _ F); apply keeps_upd; exact Hg.
 Qed.
 
 Lemma wrapper_resume_frame legacy res : res_frame res ->
@@ -149,8 +161,10 @@ Proof.
   destruct (get g w) as [x|]; [|apply keeps_refl].
   assert (S : keeps (fun x => In x (w_stack w)) w
      (fst (tramp legacy res g (BSend None) (set_w g WSuspended (set_ctx g (Some (copy_ctx (cur_ctx w))) w))))).
-  { eapply keeps_trans; [apply (keeps_upd _ g _ w Hg) | | auto].
-    eapply keeps_trans; [apply keeps_upd; exact Hg | apply tramp_frame; auto | auto]. }
+  { eapply keeps_then; [unfold set_ctx; apply keeps_upd; exact Hg |].
+    eapply keeps_then; [unfold set_w; apply keeps_upd; exact Hg |].
+    exact (tramp_frame legacy res Hres g (BSend None)
+             (set_w g WSuspended (set_ctx g (Some (copy_ctx (cur_ctx w))) w)) Hg). }
   destruct (g_w x).
   - destruct i as [|[v|]|e|]; auto; try apply keeps_refl; cbn [fst]; apply keeps_upd; auto.
   - destruct i as [|v|e|]; try (apply tramp_frame; auto).
@@ -165,12 +179,12 @@ Proof.
   - apply keeps_refl.
   - set (w0 := emit (ECall (who w) g i (cur_ctx w)) w).
     destruct (mem g (w_stack w0)) eqn:M.
-    + cbn [fst]. eapply keeps_trans; [apply keeps_emit | apply keeps_emit | auto].
+    + cbn [fst]. eapply keeps_then; apply keeps_emit.
     + apply mem_false in M.
       pose proof (wrapper_resume_frame legacy (resume legacy f) IH g i w0 M) as F.
       destruct (wrapper_resume legacy (resume legacy f) g i w0) as [w1 o]. cbn [fst] in *.
-      eapply keeps_trans; [apply (keeps_emit _ (ECall (who w) g i (cur_ctx w)) w) | | auto].
-      eapply keeps_trans; [exact F | apply keeps_emit | auto].
+      eapply keeps_then; [apply (keeps_emit _ (ECall (who w) g i (cur_ctx w)) w) |].
+      eapply keeps_then; [exact F | apply keeps_emit].
 Qed.
 
 (* C15, second clause: whatever the generator does, the caller's current
@@ -181,4 +195,245 @@ Theorem driver_unchanged legacy fuel g i w :
 Proof.
   cbn. pose proof (resume_frame legacy fuel g i w) as F.
   split; [apply F|]. split; [apply F|]. apply cur_ctx_keeps. exact F.
+Qed.
+
+(* ========================================================= own context *)
+(* The statement is about the trace alone.  For generator g we scan the
+   trace, remembering
+     c_start: a copy of the caller's context at the first call on g that can
+              start it (next / send(None)),
+     c_own:   the context left by g's own latest operation,
+   and require of every operation executed by g that the current context it
+   sees is c_own (c_start if g has not executed any operation yet) and that
+   what it leaves is the operation applied to that. *)
+Record cstate := mkcs { c_start : option ctx; c_own : option ctx }.
+Definition cinit := mkcs None None.
+Definition starts (i : input) : bool :=
+  match i with Next => true | Send None => true | _ => false end.
+Definition eff (s : cstate) : option ctx :=
+  match c_own s with Some o => Some o | None => c_start s end.
+
+Definition c_next (g : gid) (s : cstate) (e : event) : cstate :=
+  match e with
+  | ECall _ g' i c =>
+      if Nat.eqb g' g && starts i && negb (is_some (c_start s))
+      then mkcs (Some (copy_ctx c)) (c_own s) else s
+  | EOp (Some g') _ _ _ a => if Nat.eqb g' g then mkcs (c_start s) (Some a) else s
+  | _ => s
+  end.
+Definition c_ok (g : gid) (s : cstate) (e : event) : Prop :=
+  match e with
+  | EOp (Some g') o ok b a =>
+      g' = g -> eff s = Some b /\ a = apply_total o b /\ ok = is_some (apply_op o b)
+  | _ => True
+  end.
+Fixpoint chain (g : gid) (s : cstate) (t : list event) : Prop :=
+  match t with
+  | [] => True
+  | e :: t' => c_ok g s e /\ chain g (c_next g s e) t'
+  end.
+Definition final (g : gid) (s : cstate) (t : list event) : cstate := fold_left (c_next g) t s.
+
+Lemma chain_app g t1 : forall s t2,
+  chain g s (t1 ++ t2) <-> chain g s t1 /\ chain g (final g s t1) t2.
+Proof.
+  induction t1 as [|e t1 IH]; intros s t2; cbn.
+  - tauto.
+  - rewrite IH. tauto.
+Qed.
+Lemma final_app g t1 t2 s : final g s (t1 ++ t2) = final g (final g s t1) t2.
+Proof. apply fold_left_app. Qed.
+
+Definition hist (w : world) : list event := rev (w_trace w).
+Definition fin (g : gid) (w : world) : cstate := final g cinit (hist w).
+
+Definition rel (g : gid) (s : cstate) (stack : list gid) (ox : option gen) : Prop :=
+  match ox with
+  | None => ~ In g stack
+  | Some x =>
+      match g_ctx x with
+      | Some c => eff s = Some c /\ g_w x <> WUnstarted
+      | None => ~ In g stack /\ (g_w x = WFinished \/ (g_w x = WUnstarted /\ s = cinit))
+      end
+  end.
+
+Definition Inv (g : gid) (w : world) : Prop :=
+  chain g cinit (hist w) /\ rel g (fin g w) (w_stack w) (get g w).
+
+Lemma hist_emit e w : hist (emit e w) = hist w ++ [e].
+Proof. reflexivity. Qed.
+Lemma fin_emit g e w : fin g (emit e w) = c_next g (fin g w) e.
+Proof. unfold fin. rewrite hist_emit, final_app. reflexivity. Qed.
+Lemma chain_emit g e w : chain g cinit (hist w) -> c_ok g (fin g w) e -> chain g cinit (hist (emit e w)).
+Proof.
+  intros H K. rewrite hist_emit. apply chain_app. split; auto. cbn. auto.
+Qed.
+
+Lemma inv_emit_neutral g e w :
+  Inv g w -> (forall s, c_next g s e = s) -> (forall s, c_ok g s e) -> Inv g (emit e w).
+Proof.
+  intros [C R] N K. split.
+  - apply chain_emit; auto.
+  - rewrite fin_emit, N. exact R.
+Qed.
+
+(* operations that do not touch the trace *)
+Lemma inv_same_trace g w w' :
+  Inv g w -> w_trace w' = w_trace w -> rel g (fin g w) (w_stack w') (get g w') -> Inv g w'.
+Proof.
+  intros [C R] T R'. unfold Inv, fin, hist in *. rewrite T. split; auto.
+Qed.
+
+Lemma inv_upd_other g g' f w : g' <> g -> Inv g w -> Inv g (upd_gen g' f w).
+Proof.
+  intros N I. apply (inv_same_trace g w); auto.
+  rewrite get_upd_neq by auto. apply I.
+Qed.
+
+Lemma rel_stack_other g g' s st ox : g' <> g -> rel g s st ox -> rel g s (g' :: st) ox.
+Proof.
+  intros N. unfold rel. destruct ox as [x|].
+  - destruct (g_ctx x); auto. intros [A B]. split; auto. intros [E|E]; auto.
+  - intros A [E|E]; auto.
+Qed.
+Lemma rel_stack_tl g s st ox : rel g s st ox -> rel g s (tl st) ox.
+Proof.
+  assert (T : In g (tl st) -> In g st) by (destruct st; cbn; auto).
+  unfold rel. destruct ox as [x|]; [destruct (g_ctx x)|]; intuition.
+Qed.
+
+Lemma inv_push_other g g' w : g' <> g -> Inv g w -> Inv g (push g' w).
+Proof.
+  intros N I. apply (inv_same_trace g w); auto. apply rel_stack_other; auto. apply I.
+Qed.
+Lemma inv_pop g w : Inv g w -> Inv g (pop w).
+Proof.
+  intros I. apply (inv_same_trace g w); auto. apply rel_stack_tl. apply I.
+Qed.
+Lemma inv_push_self g w x c : get g w = Some x -> g_ctx x = Some c -> Inv g w -> Inv g (push g w).
+Proof.
+  intros G Cx I. apply (inv_same_trace g w); auto.
+  destruct I as [_ R]. unfold get, push in *. cbn. rewrite G in *. unfold rel in *. rewrite Cx in *. exact R.
+Qed.
+Lemma inv_set_i g g' s w : Inv g w -> Inv g (set_i g' s w).
+Proof.
+  intros I. destruct (Nat.eq_dec g' g) as [->|N]; [|apply inv_upd_other; auto].
+  apply (inv_same_trace g w); auto. unfold set_i. rewrite get_upd_eq.
+  destruct I as [_ R]. destruct (get g w) as [x|]; cbn in *; auto.
+Qed.
+Lemma inv_set_w_fin g g' w : Inv g w -> Inv g (set_w g' WFinished w).
+Proof.
+  intros I. destruct (Nat.eq_dec g' g) as [->|N]; [|apply inv_upd_other; auto].
+  apply (inv_same_trace g w); auto. unfold set_w. rewrite get_upd_eq.
+  destruct I as [_ R]. destruct (get g w) as [x|]; cbn in *; auto.
+  destruct (g_ctx x).
+  - split; [apply R | discriminate].
+  - split; [apply R | auto].
+Qed.
+Lemma inv_set_w_susp g g' w :
+  Inv g w -> (g' = g -> forall x, get g w = Some x -> g_ctx x <> None) -> Inv g (set_w g' WSuspended w).
+Proof.
+  intros I H. destruct (Nat.eq_dec g' g) as [->|N]; [|apply inv_upd_other; auto].
+  apply (inv_same_trace g w); auto. unfold set_w. rewrite get_upd_eq.
+  destruct I as [_ R]. specialize (H eq_refl). destruct (get g w) as [x|]; cbn in *; auto.
+  specialize (H x eq_refl). destruct (g_ctx x); [|congruence].
+  split; [apply R | discriminate].
+Qed.
+
+Lemma on_stack_ctx g w : Inv g w -> In g (w_stack w) -> exists x c, get g w = Some x /\ g_ctx x = Some c.
+Proof.
+  intros [_ R] H. unfold rel in R. destruct (get g w) as [x|]; [|tauto].
+  destruct (g_ctx x) as [c|] eqn:Cx; [exists x, c; auto | tauto].
+Qed.
+
+(* any context operation, executed by anybody, keeps the invariant *)
+Lemma inv_do_op g o w : Inv g w -> Inv g (fst (do_op o w)).
+Proof.
+  intros I. unfold do_op.
+  destruct (w_stack w) as [|t st] eqn:E.
+  - (* the driver *)
+    assert (W : who w = None) by (unfold who; now rewrite E).
+    rewrite W. destruct (apply_op o (cur_ctx w)) as [a|]; cbn [fst].
+    + apply inv_emit_neutral; auto; [| now cbn].
+      apply (inv_same_trace g w); auto. unfold set_cur_ctx. rewrite E. cbn. rewrite E. apply I.
+    + apply inv_emit_neutral; auto; now cbn.
+  - assert (W : who w = Some t) by (unfold who; now rewrite E).
+    rewrite W. destruct (Nat.eq_dec t g) as [->|N].
+    + (* g itself *)
+      destruct (on_stack_ctx g w I) as (x & c & G & Cx); [rewrite E; now left|].
+      assert (B : cur_ctx w = c) by (unfold cur_ctx; now rewrite E, G, Cx).
+      rewrite B. destruct I as [Ch R]. unfold rel in R. rewrite G, Cx in R.
+      destruct (apply_op o c) as [a|] eqn:A; cbn [fst].
+      * assert (A' : cur_ctx (set_cur_ctx a w) = a).
+        { unfold set_cur_ctx, cur_ctx. rewrite E. cbn [set_ctx upd_gen w_stack]. rewrite E.
+          unfold set_ctx. rewrite get_upd_eq, G. reflexivity. }
+        rewrite A'. split.
+        -- apply chain_emit; auto. cbn. intros _. split; [apply R|].
+           unfold apply_total. rewrite A. auto.
+        -- rewrite fin_emit. cbn [c_next]. rewrite Nat.eqb_refl.
+           unfold set_cur_ctx. rewrite E. unfold set_ctx, emit, get. cbn.
+           fold (get g w). rewrite nth_error_upd_nth_eq. fold (get g w). rewrite G. cbn.
+           split; [reflexivity | apply R].
+      * rewrite B. split.
+        -- apply chain_emit; auto. cbn. intros _. split; [apply R|].
+           unfold apply_total. rewrite A. auto.
+        -- rewrite fin_emit. cbn [c_next]. rewrite Nat.eqb_refl. unfold emit, get. cbn.
+           fold (get g w). rewrite G. cbn. rewrite Cx. split; [reflexivity | apply R].
+    + (* another generator *)
+      assert (NE : Nat.eqb t g = false) by (apply Nat.eqb_neq; auto).
+      destruct (apply_op o (cur_ctx w)) as [a|]; cbn [fst].
+      * apply inv_emit_neutral; [| intros s; cbn; now rewrite NE | intros s; cbn; congruence].
+        unfold set_cur_ctx. rewrite E. apply inv_upd_other; auto.
+      * apply inv_emit_neutral; auto; [intros s; cbn; now rewrite NE | intros s; cbn; congruence].
+Qed.
+
+Definition res_inv (g : gid) (res : resumer) : Prop := forall x i w, Inv g w -> Inv g (fst (res x i w)).
+
+Lemma inv_run_seg g res : res_inv g res -> forall sg w, Inv g w -> Inv g (fst (run_seg res sg w)).
+Proof.
+  intros Hres. induction sg as [h k IH|h k IH|k IH|g' i k IH|v s|v|e]; intros w I; cbn [run_seg]; auto.
+  - apply IH, inv_do_op, I.
+  - pose proof (inv_do_op g (OpExit h) w I) as J. destruct (do_op (OpExit h) w) as [w1 ok].
+    destruct ok; cbn [fst] in *; auto.
+  - apply IH, inv_do_op, I.
+  - pose proof (Hres g' i w I) as J. destruct (res g' i w) as [w1 o]. cbn [fst] in J. apply IH, J.
+Qed.
+
+Lemma inv_inner_resume g res : res_inv g res -> forall g' bi w, Inv g w -> Inv g (fst (inner_resume res g' bi w)).
+Proof.
+  intros Hres g' bi w I. unfold inner_resume. destruct (get g' w) as [x|]; auto.
+  assert (R : forall s, Inv g
+     (fst (let (w1, r) := run_seg res (g_body x s bi) w in
+        match r with
+        | RYield v s' => (set_i g' (PSuspended s') w1, ORet v)
+        | RReturn v => (set_i g' PFinished w1, OStop v)
+        | RRaise e => (set_i g' PFinished w1, ORaise e)
+        end))).
+  { intros s. pose proof (inv_run_seg g res Hres (g_body x s bi) w I) as J.
+    destruct (run_seg res (g_body x s bi) w) as [w1 r]. cbn [fst] in J.
+    destruct r; cbn [fst]; apply inv_set_i; auto. }
+  destruct (g_i x); destruct bi as [[v|]|e]; try apply R; auto; cbn [fst]; apply inv_set_i; auto.
+Qed.
+
+(* one turn of the wrapper loop on a started generator *)
+Lemma inv_tramp g legacy res : res_inv g res -> res_frame res ->
+  forall g' bi w, ~ In g' (w_stack w) ->
+  (g' = g -> exists x c, get g w = Some x /\ g_ctx x = Some c) ->
+  Inv g w -> Inv g (fst (tramp legacy res g' bi w)).
+Proof.
+  intros Hres Hfr g' bi w Hg Hc I. unfold tramp, ctx_run.
+  assert (IP : Inv g (push g' w)).
+  { destruct (Nat.eq_dec g' g) as [->|N]; [|apply inv_push_other; auto].
+    destruct (Hc eq_refl) as (x & c & G & Cx). eapply inv_push_self; eauto. }
+  pose proof (inv_inner_resume g res Hres g' bi (push g' w) IP) as J.
+  pose proof (inner_resume_frame res Hfr g' bi (push g' w) (w_stack w) eq_refl) as F.
+  destruct (inner_resume res g' bi (push g' w)) as [w1 o]. cbn [fst] in *.
+  assert (K : g' = g -> forall x, get g (pop w1) = Some x -> g_ctx x <> None).
+  { intros -> x G. destruct (on_stack_ctx g w1 J) as (x' & c & G' & Cx).
+    - destruct F as (_ & b & _). rewrite b. now left.
+    - unfold get, pop in *. cbn in G. rewrite G' in G. inversion G; subst. congruence. }
+  destruct o; cbn [fst].
+  - apply inv_set_w_susp; [apply inv_pop; auto | exact K].
+  - apply inv_set_w_fin, inv_pop; auto.
+  - apply inv_set_w_fin, inv_pop; auto.
 Qed.
